@@ -7,7 +7,7 @@ import NemoVerif.Lemmas.NumberedLines
 import NemoVerif.Lemmas.PreExpand
 namespace NemoVerif.TextLayout
 open NemoVerif.Layout
-open NemoVerif.NumberedLines (strip lstrip rstrip isPyWs)
+open NemoVerif.NumberedLines (strip lstrip rstrip isPyWs startsWith endsWith q3)
 
 /-- glue: result of a prefix scan followed by the scan of the rest -/
 def glue (o : Oracle) (s : Str) : Except Err (List Piece × Bool × Nat) → Except Err (List Piece)
@@ -879,5 +879,106 @@ theorem step_snd_of_noDots (d : Bool) (l : Str) (h : matchDots l = none) : (step
       · split
         · rfl
         · simp [subLine, h]
+
+/-! ### an end-of-line comment through the `...` pre-parsing expansion -/
+
+theorem rstrip_cons_nonws (h : Char) (rest : Str) (hh : isPyWs h = false) : rstrip (h :: rest) = h :: rstrip rest := by
+  unfold rstrip
+  rw [List.reverse_cons]
+  by_cases hr : lstrip rest.reverse = []
+  · have hall := (NumberedLines.lstrip_nil_iff _).1 hr
+    rw [NumberedLines.lstrip_allws _ _ hall, hr]
+    simp [lstrip, hh]
+  · rw [NumberedLines.lstrip_append_of_ne _ _ hr]
+    simp
+
+theorem lstrip_head_nonws (l : Str) (h : lstrip l ≠ []) : ∃ c r, lstrip l = c :: r ∧ isPyWs c = false := by
+  induction l with
+  | nil => simp [lstrip] at h
+  | cons c r ih =>
+    by_cases hc : isPyWs c = true
+    · simp only [lstrip, hc, if_true] at h ⊢
+      exact ih h
+    · exact ⟨c, r, by simp [lstrip, hc], by simpa using hc⟩
+
+/-- the first non-blank character of a line survives `strip`, whatever is appended -/
+theorem strip_append_head (l x : Str) (h : lstrip l ≠ []) : (strip (l ++ x)).head? = (lstrip l).head? := by
+  obtain ⟨c, r, hl, hc⟩ := lstrip_head_nonws l h
+  unfold strip
+  rw [NumberedLines.lstrip_append_of_ne l x h, hl, List.cons_append, rstrip_cons_nonws c _ hc]
+  rfl
+
+theorem startsWith_q3_false (s : Str) (h : s.head? ≠ some '"') : startsWith s q3 = false := by
+  cases s with
+  | nil => rfl
+  | cons c r =>
+    have : c ≠ '"' := by intro hc; apply h; simp [hc]
+    simp [startsWith, q3, List.isPrefixOf, this]
+    intro hc; exact absurd hc.symm this
+
+open NemoVerif.PreExpand in
+theorem dropDots_append_none (t : Str) (ht : t.head? ≠ some '.') (ht' : t ≠ []) : ∀ (n : Nat) (r : Str),
+    dropDots (n + 1) r = none → dropDots (n + 1) (r ++ t) = none := by
+  intro n
+  induction n with
+  | zero =>
+    intro r h
+    cases r with
+    | nil =>
+      cases t with
+      | nil => exact absurd rfl ht'
+      | cons c t' =>
+        have : c ≠ '.' := by intro hc; apply ht; simp [hc]
+        simpa using PreExpand.dropDots_succ_ne 0 c t' this
+    | cons a r' =>
+      by_cases ha : a = '.'
+      · subst ha; simp [dropDots] at h
+      · simpa using PreExpand.dropDots_succ_ne 0 a (r' ++ t) ha
+  | succ n ih =>
+    intro r h
+    cases r with
+    | nil =>
+      cases t with
+      | nil => exact absurd rfl ht'
+      | cons c t' =>
+        have : c ≠ '.' := by intro hc; apply ht; simp [hc]
+        simpa using PreExpand.dropDots_succ_ne (n + 1) c t' this
+    | cons a r' =>
+      by_cases ha : a = '.'
+      · subst ha
+        simp only [dropDots, List.cons_append] at h ⊢
+        exact ih r' h
+      · simpa using PreExpand.dropDots_succ_ne (n + 1) a (r' ++ t) ha
+
+open NemoVerif.PreExpand in
+theorem matchDots_append_none (l t : Str) (hl : lstrip l ≠ []) (hm : matchDots l = none) (ht : t.head? ≠ some '.') (ht' : t ≠ []) :
+    matchDots (l ++ t) = none := by
+  have hr : (splitSpaces l).2 ≠ [] := by
+    intro h
+    have hsp := PreExpand.spaces_of_snd_nil l h
+    apply hl
+    exact (NumberedLines.lstrip_nil_iff l).2 (fun c hc => by rw [hsp c hc]; decide)
+  unfold matchDots at hm ⊢
+  rw [PreExpand.splitSpaces_append l t hr]
+  simp only []
+  split
+  · rfl
+  · rename_i hne
+    simp only [hne, if_false] at hm
+    cases hd : dropDots 3 (splitSpaces l).2 with
+    | some r => simp [hd] at hm
+    | none => simp [dropDots_append_none t ht ht' 2 _ hd]
+
+/-- an ordinary line (not in a docstring, first non-blank character not a quote, not a `...` statement), with or without something appended
+    that is not empty and does not begin with a dot, is passed through by the pre-parsing expansion -/
+theorem step_plain (l x : Str) (hl : lstrip l ≠ []) (hq : (lstrip l).head? ≠ some '"') (hm : PreExpand.matchDots l = none)
+    (hx : x = [] ∨ (x.head? ≠ some '.' ∧ x ≠ [])) : PreExpand.step false (l ++ x) = (false, [l ++ x]) := by
+  have hs : startsWith (strip (l ++ x)) q3 = false := startsWith_q3_false _ (by rw [strip_append_head l x hl]; exact hq)
+  have hm' : PreExpand.matchDots (l ++ x) = none := by
+    rcases hx with rfl | ⟨h1, h2⟩
+    · simpa using hm
+    · exact matchDots_append_none l x hl hm h1 h2
+  unfold PreExpand.step PreExpand.stepS
+  simp [hs, PreExpand.subLine, hm']
 
 end NemoVerif.TextLayout
